@@ -33,6 +33,8 @@ enum Hk {
     ERet(u64, Result<usize, String>),
     // stack driver: client-level call / return, handle drop, release of the wrapped sink
     CCall(u64, String),
+    /// a thread is about to call client.flush()
+    FCall(u64),
     #[allow(dead_code)]
     CRet(u64, String, Result<usize, String>),
     DropBegin(u64),
@@ -279,9 +281,9 @@ pub fn drive(a: &Args) {
                 let (w, addr, s) = udp_wire();
                 let inner: Arc<BufferedUdpMetricSink> = Arc::new(BufferedUdpMetricSink::with_capacity(&addr[..], s, cap).unwrap());
                 weak = Some(Arc::downgrade(&inner));
-                let q = QueuingMetricSink::from(ArcSink(inner.clone()));
-                let client = StatsdClient::from_sink("", ViaQueue(q));
-                (w, Box::new(Delegating { inner, client }), cap)
+                let q = wrap_queuing(ArcSink(inner.clone()), run / kinds.len() as u64);
+                let client = StatsdClient::from_sink("", ViaQueue(q.clone()));
+                (w, Box::new(Delegating { inner, client, q }), cap)
             }
             "bunix-default" => {
                 let (w, p, s) = unix_wire(&format!("{}", run));
@@ -485,6 +487,18 @@ impl MetricSink for ViaQueue {
 struct Delegating {
     inner: Arc<BufferedUdpMetricSink>,
     client: StatsdClient,
+    /// a clone of the queuing wrapper the client flushes through: statistics are read through it
+    q: QueuingMetricSink,
+}
+/// the queuing wrapper is obtained in each of the ways the API offers, in turn
+fn wrap_queuing<S: MetricSink + Sync + Send + std::panic::RefUnwindSafe + 'static>(sink: S, turn: u64) -> QueuingMetricSink {
+    match turn % 5 {
+        0 => QueuingMetricSink::builder().with_error_handler(|_e| {}).build(sink),
+        1 => cadence::QueuingMetricSinkBuilder::new().with_capacity(64).with_error_handler(|_e| {}).build(sink),
+        2 => QueuingMetricSink::from(sink),
+        3 => QueuingMetricSink::with_capacity(sink, 64),
+        _ => QueuingMetricSink::builder().with_capacity(1).build(sink),
+    }
 }
 impl MetricSink for Delegating {
     fn emit(&self, m: &str) -> std::io::Result<usize> {
@@ -501,7 +515,7 @@ impl MetricSink for Delegating {
         })
     }
     fn stats(&self) -> cadence::SinkStats {
-        QueuingMetricSink::from(ArcSink(self.inner.clone())).stats()
+        self.q.stats()
     }
 }
 
@@ -725,7 +739,7 @@ pub fn conc(a: &Args) {
                             evs.append(&mut sectionless);
                         }
                     }
-                    Hk::CCall(..) | Hk::CRet(..) | Hk::DropBegin(_) | Hk::DropEnd(_) | Hk::WDropped(_) => {}
+                    Hk::CCall(..) | Hk::FCall(_) | Hk::CRet(..) | Hk::DropBegin(_) | Hk::DropEnd(_) | Hk::WDropped(_) => {}
                     Hk::ERet(tid, r) => {
                         let rv = match &r {
                             Ok(n) => json!({"ev":"ret","ok":true,"n":n,"kind":""}),
@@ -818,9 +832,16 @@ pub fn conc(a: &Args) {
 struct LogSink<S: MetricSink> {
     inner: S,
 }
+/// microseconds the logging sink rests inside every fourth emit (concurrent stack runs: a worker that is slow to hand a metric over)
+static LOGSINK_SLOW_US: std::sync::atomic::AtomicU64 = std::sync::atomic::AtomicU64::new(0);
+static LOGSINK_N: std::sync::atomic::AtomicU64 = std::sync::atomic::AtomicU64::new(0);
 impl<S: MetricSink> MetricSink for LogSink<S> {
     fn emit(&self, m: &str) -> std::io::Result<usize> {
         hk(Hk::ECall(tid(), "emit".into(), m.to_string()));
+        let us = LOGSINK_SLOW_US.load(std::sync::atomic::Ordering::Relaxed);
+        if us > 0 && LOGSINK_N.fetch_add(1, std::sync::atomic::Ordering::Relaxed) % 4 == 0 {
+            std::thread::sleep(Duration::from_micros(us));
+        }
         let r = self.inner.emit(m);
         hk(Hk::ERet(tid(), r.as_ref().map(|n| *n).map_err(|e| format!("{:?}", e.kind()))));
         r
@@ -876,8 +897,65 @@ pub fn stack(a: &Args) {
         let me = tid();
         let mut panicked = 0u64;
         take_hooks();
+        // every third run: 2-3 pinned producers share the client (emits and flushes race with each other and with the worker,
+        // which is slow to hand over every fourth metric)
+        let nprod: u64 = if run % 3 == 2 { 2 + (run / 3) % 2 } else { 1 };
+        if nprod > 1 {
+            LOGSINK_SLOW_US.store(300, std::sync::atomic::Ordering::Relaxed);
+            let client = Arc::new(client);
+            let mut js = vec![];
+            for p in 0..nprod {
+                let c = client.clone();
+                let mut prng = StdRng::seed_from_u64(seed * 977 + run * 13 + p);
+                js.push(std::thread::spawn(move || {
+                    crate::queue::pin_to(1 + p);
+                    let me = tid();
+                    let mut pan = 0u64;
+                    let mut ncalls = 0u64;
+                    for i in 0..(n / nprod).max(4) {
+                        if prng.random_range(0..5) == 0 {
+                            hk(Hk::FCall(me));
+                            if catch_unwind(AssertUnwindSafe(|| c.flush())).is_err() {
+                                pan += 1;
+                            }
+                        } else {
+                            let len = prng.random_range(0..(cap + 6)).max(8).min(300);
+                            let key = metric(run * 10_000 + p * 1000 + i, len);
+                            let line = format!("{}:{}|g", key, i);
+                            hk(Hk::CCall(me, line.clone()));
+                            let r = catch_unwind(AssertUnwindSafe(|| c.gauge(&key, i)));
+                            hk(Hk::CRet(me, line, match r {
+                                Ok(Ok(m)) => Ok(m.as_metric_str().len()),
+                                Ok(Err(e)) => Err(std::error::Error::source(&e).map(|s| s.to_string()).unwrap_or_else(|| e.to_string())),
+                                Err(_) => Err("PANIC".into()),
+                            }));
+                            ncalls += 1;
+                        }
+                    }
+                    (pan, ncalls)
+                }));
+            }
+            for j in js {
+                if let Ok((pan, nc)) = j.join() {
+                    panicked += pan;
+                    calls += nc;
+                }
+            }
+            LOGSINK_SLOW_US.store(0, std::sync::atomic::Ordering::Relaxed);
+            hk(Hk::DropBegin(me));
+            match Arc::try_unwrap(client) {
+                Ok(c) => {
+                    if catch_unwind(AssertUnwindSafe(move || drop(c))).is_err() {
+                        panicked += 1;
+                    }
+                }
+                Err(_) => panicked += 1,
+            }
+            hk(Hk::DropEnd(me));
+        } else {
         for i in 0..n {
             if rng.random_range(0..8) == 0 {
+                hk(Hk::FCall(me));
                 if catch_unwind(AssertUnwindSafe(|| client.flush())).is_err() {
                     panicked += 1;
                 }
@@ -903,6 +981,7 @@ pub fn stack(a: &Args) {
             panicked += 1;
         }
         hk(Hk::DropEnd(me));
+        }
         // the worker drains, stops and releases the wrapped sink: wait for it (bounded)
         let t0 = Instant::now();
         let mut released = false;
@@ -917,11 +996,12 @@ pub fn stack(a: &Args) {
         let hooks = take_hooks();
         let mut rcv: VecDeque<Vec<u8>> = wire.drain(0, Duration::from_millis(30)).into();
         // ---- queue-level trace
-        tq.ev(json!({"ev":"reset","cap":qcap.map(|c| c as u64).unwrap_or(1_000_000),"eh":false,"run":run,"stack":true}));
+        tq.ev(json!({"ev":"reset","cap":qcap.map(|c| c as u64).unwrap_or(1_000_000),"eh":false,"run":run,"stack":true,"producers":nprod}));
         let mut inflight: std::collections::HashMap<u64, (String, String)> = Default::default();
         for h in &hooks {
             match h {
                 Hk::CCall(t, m) => tq.ev(json!({"ev":"ecall","h":1,"m":m,"tid":t})),
+                Hk::FCall(t) => tq.ev(json!({"ev":"fcall","tid":t})),
                 Hk::CRet(_, m, Ok(nn)) => tq.ev(json!({"ev":"eret","m":m,"ok":true,"n":nn,"msg":"","len":m.len()})),
                 Hk::CRet(_, m, Err(k)) if k == "PANIC" => tq.ev(json!({"ev":"epanic","m":m})),
                 Hk::CRet(_, m, Err(k)) => tq.ev(json!({"ev":"eret","m":m,"ok":false,"n":0,"msg":k,"len":m.len()})),
@@ -953,7 +1033,7 @@ pub fn stack(a: &Args) {
             tw.ev(json!({"ev":"panic","msg":format!("{} calls of the stack panicked: {}", panicked, last_panic())}));
         }
         // ---- writer-level trace, in the order of the critical sections
-        tw.ev(json!({"ev":"reset","cap":cap,"tlen":1,"term":"0a","kind":if udp {"stack-budp"} else {"stack-bspy"},"run":run}));
+        tw.ev(json!({"ev":"reset","cap":cap,"tlen":1,"term":"0a","kind":if udp {"stack-budp"} else {"stack-bspy"},"run":run,"producers":nprod}));
         let mut cur: std::collections::HashMap<u64, (String, String)> = Default::default();
         let mut evs: Vec<Value> = vec![];
         let mut open_ret: std::collections::HashMap<u64, usize> = Default::default();
